@@ -1,5 +1,6 @@
 """Shared recognisers used by the per-property rule modules."""
 import ast
+import copy
 
 from .cfg import decompose, atoms_of
 from .core import AnalysisError, FuncNode, ancestors, u, walk_local, enclosing_stmt
@@ -113,7 +114,7 @@ def calls_of_node(node):
   return out
 
 
-def std_facts(prog, f, g=None, extra_kill=None, attr_kill=None):
+def std_facts(prog, f, g=None, extra_kill=None, attr_kill=None, expand=True):
   """Must-facts on entry to every CFG node of f.
 
   Facts:
@@ -174,7 +175,55 @@ def std_facts(prog, f, g=None, extra_kill=None, attr_kill=None):
       return fact[1] in stored_names(node, mutations=False)
     return False
 
-  return g, g.must_facts(edge_facts, kill)
+  facts1 = g.must_facts(edge_facts, kill)
+  if not expand:
+    return g, facts1
+
+  def expanded_test(node):
+    """The branch condition with boolean temporaries replaced by their (must-)definitions."""
+    defs = {f_[1]: f_[2] for f_ in facts1[node.id] if f_[0] == 'def'}
+    changed = [False]
+
+    class Sub(ast.NodeTransformer):
+      def visit_Name(self, n):
+        d = defs.get(n.id)
+        if d is None or d.startswith(('unpack[', 'iter(', 'with(')) or not isinstance(n.ctx, ast.Load):
+          return n
+        try:
+          e = ast.parse(d, mode='eval').body
+        except SyntaxError:
+          return n
+        if isinstance(e, (ast.BoolOp, ast.Compare, ast.UnaryOp, ast.Call, ast.Attribute, ast.Name, ast.Subscript)) and n.id not in {x.id for x in ast.walk(e) if isinstance(x, ast.Name)}:
+          if isinstance(e, ast.Call) and isinstance(e.func, ast.Attribute) and e.func.attr in _MUT:
+            return n
+          changed[0] = True
+          return e
+        return n
+    t = ast.parse(u(node.ast), mode='eval').body     # (deepcopy would follow the parent pointers)
+    for _ in range(3):
+      changed[0] = False
+      t = Sub().visit(t)
+      if not changed[0]:
+        break
+    ast.fix_missing_locations(t)
+    return t
+
+  cache = {}
+
+  def edge_facts2(node, kind):
+    out = list(edge_facts(node, kind))
+    if node.kind == 'test' and kind in ('T', 'F'):
+      if node.id not in cache:
+        try:
+          cache[node.id] = expanded_test(node)
+        except Exception:
+          cache[node.id] = None
+      t = cache[node.id]
+      if t is not None and u(t) != u(node.ast):
+        out.extend(('c', tx, p) for tx, p in decompose(t, kind == 'T'))
+    return out
+
+  return g, g.must_facts(edge_facts2, kill)
 
 
 def facts_at(g, facts, astnode):
@@ -450,7 +499,7 @@ class BoolForm:
     return lambda env, v=v: env[v]
 
   def assignments(self):
-    if len(self.atoms) > 14:
+    if len(self.atoms) > 18:
       raise AnalysisError('too many guard atoms for truth-table evaluation: %s' % self.atoms)
     for vals in itertools.product((False, True), repeat=len(self.atoms)):
       yield dict(zip(self.atoms, vals))
@@ -462,8 +511,23 @@ def facts_imply(fs, required, atom_of):
   labels that are NOT implied, with a counter-assignment."""
   bf = BoolForm(atom_of)
   premises = []
-  for f in fs:
+  cand = []
+  for f in sorted(fs, key=str):
     if f[0] != 'c':
+      continue
+    # premises that mention no named atom cannot help to imply a requirement over named atoms
+    probe = BoolForm(atom_of)
+    probe.compile(f[1])
+    if probe.atoms and all(a.startswith('?') for a in probe.atoms):
+      continue
+    cand.append((f, set(a for a in probe.atoms if not a.startswith('?')), any(a.startswith('?') for a in probe.atoms)))
+  covered = set()
+  for f, named, unk in cand:
+    if not unk:
+      covered |= named
+  for f, named, unk in cand:
+    # a premise with opaque parts is kept only if it says something about a named atom no fully understood premise covers
+    if unk and named <= covered:
       continue
     fn = bf.compile(f[1])
     premises.append((fn, f[2]))
